@@ -48,12 +48,19 @@ type State struct {
 	epoch int
 	heaps map[string]string // heap name -> current term
 	tok   string
+	locks map[string]int // ghost lock set (C20): mutex identity -> none / read / write
 }
 
 func (s *State) clone() *State {
 	n := &State{epoch: s.epoch, heaps: map[string]string{}, tok: s.tok}
 	for k, v := range s.heaps {
 		n.heaps[k] = v
+	}
+	if s.locks != nil {
+		n.locks = map[string]int{}
+		for k, v := range s.locks {
+			n.locks[k] = v
+		}
 	}
 	return n
 }
@@ -111,6 +118,7 @@ type Enc struct {
 	usedGlobals   []string
 	instDone      map[string]bool
 	freshApplied  map[string]bool
+	lockAcq       map[string]int
 }
 
 type Frame struct {
@@ -136,6 +144,7 @@ type Frame struct {
 	defers   []*ssa.Defer
 	lets     map[string]*Val // pre-state lets of the contract (usable in loop invariants)
 	curSt    *State
+	guardedVals map[ssa.Value][2]string
 }
 
 type retSite struct {
@@ -155,6 +164,7 @@ type loopInfo struct {
 	rangeIdx *ssa.Phi
 	rangeLen ssa.Value
 	mapRange *ssa.Range
+	autoFresh []*ssa.Phi
 }
 
 type rangeState struct {
@@ -273,6 +283,21 @@ func (e *Enc) mergeStates(conds []string, sts []*State) *State {
 			continue
 		}
 		out.heaps[k] = e.ctx.define(k+"@m", srt, term)
+	}
+	// a lock is held after a join only if it is held on every incoming path
+	for _, s := range sts {
+		for k := range s.locks {
+			m := s.locks[k]
+			for _, s2 := range sts {
+				if s2.locks[k] < m {
+					m = s2.locks[k]
+				}
+			}
+			if out.locks == nil {
+				out.locks = map[string]int{}
+			}
+			out.locks[k] = m
+		}
 	}
 	tok := sts[len(sts)-1].tok
 	for i := len(sts) - 2; i >= 0; i-- {
@@ -963,6 +988,12 @@ func (f *Frame) freshRef(st *State, r string) {
 	e := f.enc
 	al := e.allocArr(st)
 	e.ctx.assert(fmt.Sprintf("(and (not (= %s nil)) (not (select %s %s)))", r, al, r))
+	// allocation only grows: what is new now did not exist at entry either (stated directly, so
+	// that frame obligations need no chain of monotonicity steps)
+	e.heapInit("alloc", "(Array Ref Bool)", 0)
+	if al != "alloc!0" {
+		e.ctx.assert(fmt.Sprintf("(not (select alloc!0 %s))", r))
+	}
 	e.heapSet(st, "alloc", "(Array Ref Bool)", store(al, r, "true"))
 }
 
@@ -1460,6 +1491,7 @@ func (f *Frame) encodeRange(x *ssa.Range, st *State) {
 		rs.visited = fmt.Sprintf("((as const (Array %s Bool)) false)", rs.keySort)
 	}
 	f.rangeSt[x] = rs
+	f.lockMapObl(v, x, false)
 	f.vals[x] = &Val{T: "nil", Typ: x.Type(), ConstLen: -1}
 }
 
